@@ -1,7 +1,7 @@
 (* C10 -- store capacity, distance-based eviction and quoting metrics are exact.
    Only pinned statements, `exact <lemma>` and Print Assumptions live here. *)
 From Coq Require Import List NArith String Bool.
-From V Require Import lib.Strs gen.Consts model.RecordStore proofs.RecordStore proofs.RecordStoreCap.
+From V Require Import lib.Strs gen.Consts model.RecordStore proofs.RecordStore proofs.RecordStoreCap proofs.RecordStoreSettled.
 Import ListNotations.
 Open Scope N_scope.
 
@@ -40,6 +40,13 @@ Theorem accept_at_capacity_iff : forall E s k v t,
   | None => idx s = [] /\ fst (put_verified E s k v t) = PStored /\ idx (snd (put_verified E s k v t)) = []
   end.
 Proof. exact accept_at_capacity_lemma. Qed.
+
+(* a refused record is neither kept in the read cache nor served (repaired: it used to be both, and an
+   identical second put then returned Ok without storing anything) *)
+Theorem refused_not_served : forall E s k v t, contains s k = false ->
+  fst (put_verified E s k v t) = PRefused ->
+  klookup k (cache (snd (put_verified E s k v t))) = None /\ get E (snd (put_verified E s k v t)) k = None.
+Proof. exact refused_not_served_lemma. Qed.
 
 Theorem reachable_views : forall E, dist_inj E -> forall ops, Views E (run E ops (init E)).
 Proof. exact views_agree_lemma. Qed.
